@@ -20,6 +20,8 @@ unsigned nondet_uint(void);
 unsigned char nondet_uchar(void);
 unsigned long nondet_ulong(void);
 size_t nondet_size_t(void);
+long nondet_long(void);
+char nondet_char(void);
 
 typedef unsigned char byte;
 typedef unsigned int sector_count_type;
@@ -35,7 +37,10 @@ enum { SECTOR_BYTES = 256 };
 #endif
 
 /* ---- exceptions ------------------------------------------------------------------------- */
-enum { EXC_NONE = 0, EXC_BadFileSystem, EXC_OsError, EXC_Other };
+enum { EXC_NONE = 0, EXC_BadFileSystem, EXC_OsError, EXC_Other,
+       /* where the dynamic type decides which handler catches it (driveselector.cc): <stdexcept> classes by name */
+       EXC_BadSurfaceSelector, EXC_std_out_of_range, EXC_std_invalid_argument, EXC_std_range_error, EXC_std_runtime_error,
+       EXC_std_logic_error, EXC_std_length_error, EXC_std_domain_error, EXC_std_overflow_error, EXC_std_underflow_error };
 static int g_exc;                 /* pending exception type */
 static _Bool g_exc_by_pointer;    /* `throw new X` : escapes catch (std::exception&) */
 #define VERIF_THROW(type, by_pointer) do { g_exc = EXC_##type; g_exc_by_pointer = (by_pointer); } while (0)
